@@ -104,7 +104,7 @@ def judge_fast(rep, cases, wd):
 
 
 def fast_section(rep, tier, sd, wd):
-    n = 50 if tier == 'quick' else 400
+    n = 36 if tier == "quick" else 400
     marks = [os.path.join(wd, 'fast-running-%d' % k) for k in range(16)]
     with mp.get_context('fork').Pool(16) as pool:
         job = pool.map_async(progdrv.fast_cases, [(sd * 613 + 11 + k, n, marks[k]) for k in range(16)])
